@@ -77,6 +77,7 @@ pub struct Limits {
     pub max_depth: Option<usize>,
     pub max_states: u64,
     pub max_wall_s: f64,
+    pub max_rss_mb: u64,
     pub max_violations: usize,
 }
 
@@ -86,6 +87,7 @@ impl Default for Limits {
             max_depth: None,
             max_states: 50_000_000,
             max_wall_s: 3600.0,
+            max_rss_mb: 40_000,
             max_violations: 400,
         }
     }
@@ -145,6 +147,10 @@ pub fn explore<S: System>(sys: &S, lim: &Limits) -> Explored<S::Op> {
         }
         if ex.states >= lim.max_states {
             ex.capped = Some(format!("state cap {} reached", lim.max_states));
+            break;
+        }
+        if crate::util::rss_mb() > lim.max_rss_mb {
+            ex.capped = Some(format!("RSS cap {} MB reached", lim.max_rss_mb));
             break;
         }
         if t0.elapsed().as_secs_f64() > lim.max_wall_s {
